@@ -15,7 +15,7 @@ REAL = ['onl.scheduler.wfq.WFQ', 'onl.scheduler.virtual_clock.VC', 'onl.sim.reso
 STUBS = ['injector, taps, recording sink']
 ASSUMPTIONS = ['stamps closer than 1e-9 (relative) count as equal; on exactly equal stamps the earlier arrival must go first '
                'only if it arrived at a strictly earlier instant', 'same-instant leniency at service starts']
-PROBES = ['ge4_equal_stamps', 'virtual_time_reset', 'static_backlog', 'kind_WFQ', 'kind_VC', 'many_to_one_map', 'choice_among_classes']
+PROBES = ['busy_period_ends_and_begins_in_one_instant', 'ge4_equal_stamps', 'virtual_time_reset', 'static_backlog', 'kind_WFQ', 'kind_VC', 'many_to_one_map', 'choice_among_classes']
 
 
 def gen(rng, tier):
@@ -25,7 +25,25 @@ def gen(rng, tier):
     if case.get('mode') == 'GRID' and rng.random() < 0.15 and 't0' not in case:
         # a clock that does not start at zero (small negative origins: stamps and instants pass through exactly 0.0)
         case['t0'] = rng.choice([-100, -7.5, -1000, 64, -2, -1, -4, -0.5, -3, -2, -1])
-    if rng.random() < 0.3:
+    if kind == 'WFQ' and case.get('mode') == 'GRID' and not case.get('fmap') and not case.get('fast_link') \
+            and not case.get('phase2') and rng.random() < 0.12:
+        # a busy period ends and, in the same instant but after the last departure, the next one begins: a class that was
+        # served ahead of its fluid finish (a light class with a big packet) must not carry its old stamp over
+        cl = [c for c, _ in case['table']]
+        if len(cl) >= 2:
+            a, b = cl[0], cl[1]
+            c3 = cl[2] if len(cl) > 2 else b
+            case['table'] = [[c, (rng.choice([0.0625, 0.125]) if c == a else 1)] for c in cl]
+            r = case['rate']
+            s1, s2 = rng.choice([512, 1024]), rng.choice([512, 1024, 2048])
+            t1 = s1 * 8.0 / r
+            t2 = t1 + s2 * 8.0 / r
+            sx = rng.choice([1024, 4096])
+            case['workload'] = [[0.0, a, s1, 0, None, 0], [t1 / 2, b, s2, 0, None, 0], [t2, rng.choice([b, c3]), sx, 0, None, 1],
+                                [t2 + 0.125 * sx * 8.0 / r, a, 64, 0, None, 0], [t2 + 0.125 * sx * 8.0 / r, c3, 512, 0, None, 0]]
+            case.pop('shadow', None)
+            case['period_end'] = True
+    if rng.random() < 0.3 and not case.get('period_end'):
         # equal stamps on purpose: equal weights and sizes, simultaneous arrivals
         v = case['table'][0][1]
         case['table'] = [[c, v] for c, _ in case['table']]
@@ -39,6 +57,8 @@ def run(case):
     H = sched.parse(r)
     kind = case['kind']
     viol, stats = sched.check_stamp_order(H, case, kind, ID)
+    if case.get('period_end'):
+        stats['busy_period_ends_and_begins_in_one_instant'] = 1
     if kind == 'WFQ':
         v2, s2 = sched.check_wfq_fairness(H, case, ID)
         viol += v2
